@@ -1571,7 +1571,9 @@ func (c *vCompiler) NewLakeDeleteQuery(rctx *runtime.Context, _ ast.Seq, commiti
 // verif:desc C12-O6 real lake.Branch.DeleteWhere (runtime.NewContext, lake.NewWriter/Close with nothing to rewrite, Store.Snapshot of the parent, patch from the query's deletion set, Patch.NewCommitObject, Branch.commit retry loop) over a MODEL runtime.Compiler (environment: the delete query compiled for commit X deletes all of data object 0 iff X's snapshot holds it), racing with a second client's Branch.Delete of the same object (<= 1 preemption at any storage call). Asserted: the query is compiled against the tip of THAT attempt (the commitish handed to the compiler names the commit the acknowledged commit is parented on); the acknowledged operations replayed one at a time in chain order are valid and give the real, replayable tip snapshot (object 0 is never deleted twice); failed operations leave no trace.
 // verif:bounds main = c1 adding {0,1}; pairs: delete-where(object 0) / delete 0, delete 0 / delete-where(object 0), delete-where / delete-where, delete-where(object 0) / delete 1; <= 1 preemption of A; atomic-put storage
 // verif:outside the real compiler, optimizer and meta.Deleter (which values a predicate selects: C14-O5, C16-O3); rewritten objects (lake.Writer goroutines are not reached: the query returns no values); > 1 preemption
-func VerifH_C12_O6_delete_where_race() {
+func VerifH_C12_O6_delete_where_race() { vDeleteWhereRace() }
+
+func vDeleteWhereRace() {
 	sc := verif.Choose("scenario", 4)
 	_, a, b, _, eng := vTwoOps(false, 1, 0, func(s *vSetup, ha, hb *vHandle) (*vOp, *vOp) {
 		switch sc {
